@@ -426,7 +426,7 @@ class FileStoreResponseTlv(FileStoreRequestBase, AbstractTlvBase):
         status_code: FilestoreResponseStatusCode,
         first_file_name: str,
         second_file_name: str = "",
-        filestore_msg: CfdpLv = CfdpLv(value=bytes()),
+        filestore_msg: Optional[CfdpLv] = None,
     ):
         super().__init__(
             action_code=action_code,
@@ -434,6 +434,8 @@ class FileStoreResponseTlv(FileStoreRequestBase, AbstractTlvBase):
             second_file_name=second_file_name,
         )
         self.status_code = status_code
+        if filestore_msg is None:
+            filestore_msg = CfdpLv(value=bytes())
         self.filestore_msg = filestore_msg
 
     def generate_tlv(self):
